@@ -3,7 +3,7 @@
 Each change is applied in its own scratch git worktree of /repo HEAD under /tmp/det (outside /repo and /verif, removed
 afterwards); the check is pointed at the worktree with VERIF_REPO and writes its evidence/replays under /tmp/det/out.
 Also evaluates the reverted `fix:` commits listed in known_findings.json (reverse-applied in a scratch worktree).
-Writes /verif/DETECTION.md and /verif/detection.json.  usage: tools/detection.py [-j 3] [--only C07]"""
+Writes /verif/DETECTION.md and /verif/detection.json.  usage: tools/detection.py [-j 3] [--only C07 | --names C07_m19,C07_m20 (merge into detection.json)]"""
 import sys, os, json, re, subprocess, shutil, glob, concurrent.futures as cf, time
 ROOT = os.path.dirname(os.path.dirname(os.path.abspath(__file__)))
 
@@ -86,6 +86,10 @@ def main():
             items.append(('revert_%s_%s' % (m.group(1), m.group(2)), m.group(1), 'reverted-fix', m.group(2)))
     if only:
         items = [i for i in items if i[1] == only]
+    names = sys.argv[sys.argv.index('--names') + 1].split(',') if '--names' in sys.argv else None
+    all_items = items
+    if names:       # re-evaluate the named changes only and merge them into the existing detection.json
+        items = [i for i in items if i[0] in names]
     os.makedirs('/tmp/det/out', exist_ok=True)
     res = []
     with cf.ThreadPoolExecutor(j) as ex:
@@ -94,6 +98,10 @@ def main():
             res.append(r)
     if only:
         return
+    if names:
+        prev = {r['name']: r for r in json.load(open(ROOT + '/detection.json'))}
+        prev.update({r['name']: r for r in res})
+        res = [prev[i[0]] for i in all_items if i[0] in prev]
     json.dump(res, open(ROOT + '/detection.json', 'w'), indent=1)
     head = subprocess.run('git -C /repo rev-parse --short HEAD', shell=True, capture_output=True, text=True).stdout.strip()
     lines = ['# Detection of property-breaking changes by the quick checks', '',
